@@ -130,6 +130,24 @@ def run_case(chk, c, items, meta):
             applied.append(np.array(res.data))
         at_ok = all(np.array_equal(np.array(U.at(float(ta.data[i])).data), data[i]) for i in range(nt))
         allres = np.array(U.apply(ta, qr.ReducedDensityMatrix(data=rho.copy())).data)   # time="all" raises AttributeError in the package (str has no .data): not used
+        # re-use of one object (histories): set_dense_dt(N'), calculate() again must give what a fresh object with N' gives, and
+        # going back to the first setting must give the first result again (no state survives besides the settings)
+        nd2 = nd % 3 + 1
+        U.set_dense_dt(nd2)
+        U.calculate()
+        reused = np.array(U.data)
+        reapplied = np.array(U.apply(float(ta.data[nt - 1]), qr.ReducedDensityMatrix(data=rho.copy())).data)
+        Uf = EvolutionSuperOperator(time=ta, ham=qr.Hamiltonian(data=H.copy()), relt=relt(), mode="all")
+        Uf.set_dense_dt(nd2)
+        Uf.calculate()
+        fresh = np.array(Uf.data)
+        U.set_dense_dt(nd)
+        U.calculate()
+        back = np.array(U.data)
+        prop2 = qr.ReducedDensityMatrixPropagator(ta, qr.Hamiltonian(data=H.copy()), RTensor=relt())
+        if nd2 > 1:
+            prop2.setDtRefinement(nd2)
+        direct2 = np.array(prop2.propagate(qr.ReducedDensityMatrix(data=rho.copy())).data)
         # incremental mode: the mode chosen for the Coq comparison, and ALWAYS also the in-place mode (save=False) for more
         # calls than the grid has points (it keeps only the current value, so it may run on): every value must be the
         # corresponding power of the first one
@@ -161,6 +179,16 @@ def run_case(chk, c, items, meta):
         direct = np.array(prop.propagate(qr.ReducedDensityMatrix(data=rho.copy())).data)
     tensor_monitors(chk, c, data, "all")
     sc = float(np.max(np.abs(data))) * float(np.max(np.abs(rho)))
+    if not np.array_equal(reused, fresh):
+        chk.violation("reuse_vs_fresh", "calculate(), set_dense_dt(%d), calculate() on one object differs from a fresh object with dense setting %d by %g; "
+                      "applied to a state it differs from direct propagation with that internal step by %g (case %s)"
+                      % (nd2, nd2, float(np.max(np.abs(reused - fresh))), float(np.max(np.abs(reapplied - direct2[nt - 1]))), json.dumps(c)), "monitor", c)
+    elif not np.array_equal(back, data):
+        chk.violation("reuse_back", "calculate() after set_dense_dt(%d), calculate(), set_dense_dt(%d) differs from the first calculate() with dense setting %d "
+                      "by %g (case %s)" % (nd2, nd, nd, float(np.max(np.abs(back - data))), json.dumps(c)), "monitor", c)
+    elif np.max(np.abs(reapplied - direct2[nt - 1])) > 1e-10 * sc:
+        chk.violation("reuse_vs_propagation", "after set_dense_dt(%d) and a second calculate(), U(t_%d) applied to a state differs from direct propagation "
+                      "with that internal step by %g (case %s)" % (nd2, nt - 1, float(np.max(np.abs(reapplied - direct2[nt - 1]))), json.dumps(c)), "monitor", c)
     for i in range(nt):
         if np.max(np.abs(applied[i] - direct[i])) > 1e-10 * sc or np.max(np.abs(allres[i] - direct[i])) > 1e-10 * sc:
             chk.violation("apply_vs_propagation", "U(t_%d) applied to a state differs from direct propagation by %g (case %s)"
@@ -244,6 +272,16 @@ def float_monitors(chk, tier):
                 rs2 = np.random.RandomState(k)
                 with contextlib.redirect_stdout(io.StringIO()):
                     fine, _, _, _ = build(nd * 8)
+                    # the same refinement on the object already used (calculate, set_dense_dt, calculate): must be the fresh result
+                    Uo = EvolutionSuperOperator(time=ta, ham=ham, relt=LF, pdeph=pd, mode="all")
+                    Uo.set_dense_dt(nd)
+                    Uo.calculate()
+                    Uo.set_dense_dt(nd * 8)
+                    Uo.calculate()
+                    inplace = np.array(Uo.data)
+                if np.max(np.abs(inplace - fine)) > 1e-12:
+                    chk.violation("reuse_vs_fresh:float", "refining the dense step on an object that has already been calculated (set_dense_dt(%d), calculate()) "
+                                  "differs from a fresh object with that setting by %g" % (nd * 8, float(np.max(np.abs(inplace - fine)))), "monitor", c)
                 G = np.zeros((n * n, n * n), dtype=complex)
                 Rt = np.array(LF.data)
                 I = np.eye(n)
